@@ -2,6 +2,7 @@
 from __future__ import annotations
 
 import ast
+import re
 from typing import Dict, List, Set
 
 from ..affine import Aff, prove_ge0, find_counterexample
@@ -174,39 +175,91 @@ def run(index: RepoIndex, rep) -> None:
     for rel, kind in ((STATE, 'State'), (OBSR, 'Observation')):
         c = index.cls(rel, f'CompactGridObject{kind}Representation')
         init = c.methods['__init__']
-        w = walk_function(init.node)
-        cd = [d for d in w.defs.get('compact_index', [])]
-        starts = [d for d in cd if d[0] == 'value']
-        rep.check(len(starts) == 1 and src(starts[0][1]) == '0' and not starts[0][4], 'C16.R6',
-                  rel, f'{c.name}.__init__', init.node.lineno, 'compact_index = ...',
+        from ..view import view
+        node, w, _inl = view(index, init, cross=('compact_grid_object_representation_maps',),
+                             keep=('_sorted_object_types', '_sorted_colors'))
+        # the source of fresh indices: a variable started at 0 and incremented right after
+        # each use, or an itertools.count() read through next()
+        counters = {}
+        for nm, ds in w.defs.items():
+            vals = [d for d in ds if d[0] == 'value']
+            augs = [d for d in ds if d[0] == 'aug']
+            if len(vals) == 1 and not vals[0][4] and len(ds) == len(vals) + len(augs):
+                v = vals[0][1]
+                if isinstance(v, ast.Constant) and v.value == 0 and augs:
+                    counters[nm] = ('var', augs)
+                elif isinstance(v, ast.Call) and src(v.func) in ('itertools.count', 'count') \
+                        and (not v.args or src(v.args[0]) == '0') and len(v.args) <= 1 \
+                        and not v.keywords and not augs:
+                    counters[nm] = ('iter', [])
+        rep.check(len(counters) == 1, 'C16.R6',
+                  rel, f'{c.name}.__init__', init.node.lineno, str(sorted(counters)),
                   'the compact counter does not start at 0 (once, outside the loops)',
                   f'{c.name} counter from 0')
+        if len(counters) != 1:
+            continue
+        cname, (ckind, incs) = next(iter(counters.items()))
+        read = cname if ckind == 'var' else f'next({cname})'
         stores = [e for e in w.events if e.kind == 'store'
-                  and src(e.target.value).startswith('self._grid_object_')]
-        incs = [d for d in cd if d[0] == 'aug']
+                  and isinstance(e.target, ast.Subscript) and e.value is not None
+                  and src(e.value) == read]
         rep.check(len(stores) == 3, 'C16.R6', rel, f'{c.name}.__init__', init.node.lineno,
                   '; '.join(src(e.stmt) for e in stores),
                   f'expected three map stores, found {len(stores)}', f'{c.name} three maps')
         for e in stores:
-            # the statement right after the store, in the same block, is `compact_index += 1`
-            nxt = _next_stmt(init.node, e.stmt)
-            ok = src(e.value) == 'compact_index' and nxt is not None and \
-                src(nxt) == 'compact_index += 1'
+            if ckind == 'var':
+                # the statement right after the store, in the same block, is `counter += 1`
+                nxt = _next_stmt(node, e.stmt)
+                ok = nxt is not None and src(nxt) == f'{cname} += 1'
+            else:
+                ok = True
             rep.check(ok, 'C16.R6', rel, f'{c.name}.__init__', e.line, src(e.stmt),
                       'a compact map entry does not take the counter followed immediately by '
-                      '`compact_index += 1` (values would repeat or leave gaps)',
+                      'its increment (values would repeat or leave gaps)',
                       f'{c.name}: {src(e.target.value)} consecutive')
-        rep.check(len(incs) == len(stores), 'C16.R6', rel, f'{c.name}.__init__',
+        if ckind == 'var':
+            other = len(incs) != len(stores)
+        else:
+            uses = [n for n in ast.walk(node) if isinstance(n, ast.Name) and n.id == cname
+                    and isinstance(n.ctx, ast.Load)]
+            other = len(uses) != len(stores)
+        rep.check(not other, 'C16.R6', rel, f'{c.name}.__init__',
                   init.node.lineno, f'{len(incs)} increments',
-                  'the counter is incremented elsewhere than right after a map store (gaps)',
+                  'the counter is advanced elsewhere than for a map store (gaps)',
                   f'{c.name} increments = stores')
-        loops = [src(e.loops[-1][1]) if e.loops else '' for e in stores]
-        okl = all(l in ('grid_object_types', 'range(grid_object.num_states())',
-                        'grid_object_colors') for l in loops)
-        rep.check(okl and len(set(loops)) == 3, 'C16.R6', rel, f'{c.name}.__init__',
+        loops = [src(w.expand(e.loops[-1][1])) if e.loops else '' for e in stores]
+
+        def loop_kind(t: str) -> str:
+            if t.startswith('_sorted_object_types('):
+                return 'types'
+            if t.startswith('_sorted_colors('):
+                return 'colours'
+            if re.fullmatch(r'range\(\w+\.num_states\(\)\)', t):
+                return 'states'
+            return '?'
+        kinds = [loop_kind(l) for l in loops]
+        rep.check(sorted(kinds) == ['colours', 'states', 'types'], 'C16.R6', rel,
+                  f'{c.name}.__init__',
                   init.node.lineno, '; '.join(loops),
                   'the compact maps are not filled over the sorted types, range(num_states()) '
                   'and sorted colours', f'{c.name} iteration orders')
+        # the three filled arrays are the three maps of the representation
+        attrs = {}
+        for e in w.events:
+            if e.kind == 'attrstore' and src(e.target).startswith('self._grid_object_') and \
+                    e.value is not None:
+                attrs[src(e.target)] = src(w.expand(e.value, stop=list(w.defs)))
+        filled = {}
+        for e, k in zip(stores, kinds):
+            filled[k] = src(e.target.value)
+        want = {'types': 'self._grid_object_type_map', 'states': 'self._grid_object_status_map',
+                'colours': 'self._grid_object_color_map'}
+        okm = all(filled.get(k) == a or attrs.get(a) == filled.get(k)
+                  or _tuple_item(w, a, filled.get(k)) for k, a in want.items())
+        rep.check(okm, 'C16.R6', rel, f'{c.name}.__init__', init.node.lineno,
+                  f'{filled} -> {attrs}',
+                  'the arrays filled over types / statuses / colours are not installed as the '
+                  'type / status / colour maps', f'{c.name} maps installed')
     for rel in (STATE, OBSR):
         for fn, key in (('_sorted_object_types', 'lambda obj_type: obj_type.type_index()'),
                         ('_sorted_colors', 'lambda color: color.value')):
@@ -217,6 +270,20 @@ def run(index: RepoIndex, rep) -> None:
                       rel, fn, f.node.lineno, src(b[-1]),
                       f'{fn} does not sort by index (the compact numbering would depend on '
                       f'hash order)', f'{fn} sorted by index')
+
+
+def _tuple_item(w, attr: str, local: str) -> bool:
+    """`attr` is assigned the element of a parallel assignment that is the local array"""
+    for e in w.events:
+        st = e.stmt
+        if isinstance(st, ast.Assign) and len(st.targets) == 1 and \
+                isinstance(st.targets[0], ast.Tuple):
+            v = w.expand(st.value, stop=[local] if local else [])
+            if isinstance(v, ast.Tuple) and len(v.elts) == len(st.targets[0].elts):
+                for t, x in zip(st.targets[0].elts, v.elts):
+                    if src(t) == attr and src(x) == local:
+                        return True
+    return False
 
 
 def _next_stmt(fn: ast.FunctionDef, stmt: ast.stmt):
